@@ -215,3 +215,17 @@ impl<T: RealNumber, D: Distance<Vec<T>, T>> G<T, D> {
         exists|s: int| #[trigger] self.first_core_of(y, s, c)
     }
 }
+
+// quantified form (see the end of fit_defs.rs)
+impl<T: RealNumber, D: Distance<Vec<T>, T>> G<T, D> {
+    pub proof fn lemma_conn_init_q(self)
+        ensures
+            forall|y: Seq<i16>| (y.len() == self.n() && forall|q: int| 0 <= q < y.len() ==> #[trigger] y[q] == -3)
+                ==> #[trigger] self.conn_ok(y, Seq::<int>::empty()),
+    {
+        assert forall|y: Seq<i16>| (y.len() == self.n() && forall|q: int| 0 <= q < y.len() ==> #[trigger] y[q] == -3)
+            implies #[trigger] self.conn_ok(y, Seq::<int>::empty()) by {
+            self.lemma_conn_init(y);
+        }
+    }
+}
